@@ -146,7 +146,13 @@ def render_moltype(mt):
         if res["vs"]:
             a = [first[r] + k for k in res["vs"]["atoms"]]
             vs2.append(" ".join(map(str, a)) + " " + " ".join(res["vs"]["params"]))
+    vs_only = {frozenset(e) for e in mt.get("vs_only_edges", [])}
     for r1, r2 in mt["res_edges"]:
+        if frozenset((r1, r2)) in vs_only:
+            # the two residues are tied together by a virtual-site construction only: the first atom of the
+            # second residue is a site built from the first two atoms of the first residue (no bond, no constraint)
+            vs2.append(f"{first[r2]} {first[r1]} {first[r1] + 1} 1 0.5")
+            continue
         bonds.append(f"{first[r1]} {first[r2]} 1 0.35 1000")
     if bonds:
         lines.append("[ bonds ]")
